@@ -163,6 +163,11 @@ BD_Shape<T>::congruences() const {
 template <typename T>
 inline void
 BD_Shape<T>::add_constraints(const Constraint_System& cs) {
+  // Dimension-compatibility check.
+  if (cs.space_dimension() > space_dimension()) {
+    throw_invalid_argument("add_constraints(cs)",
+                           "cs and *this are space-dimension incompatible");
+  }
   for (Constraint_System::const_iterator i = cs.begin(),
          cs_end = cs.end(); i != cs_end; ++i) {
     add_constraint(*i);
@@ -178,6 +183,11 @@ BD_Shape<T>::add_recycled_constraints(Constraint_System& cs) {
 template <typename T>
 inline void
 BD_Shape<T>::add_congruences(const Congruence_System& cgs) {
+  // Dimension-compatibility check.
+  if (cgs.space_dimension() > space_dimension()) {
+    throw_invalid_argument("add_congruences(cgs)",
+                           "cgs and *this are space-dimension incompatible");
+  }
   for (Congruence_System::const_iterator i = cgs.begin(),
          cgs_end = cgs.end(); i != cgs_end; ++i) {
     add_congruence(*i);
